@@ -2733,6 +2733,9 @@ impl SctpInner {
                 dc.state
                     .store(DataChannelState::Closed as usize, Ordering::SeqCst);
                 dc.send_event(DataChannelEvent::Close);
+                // Close is the last event of the channel (as on association teardown): a message
+                // the run loop is delivering at this very moment must not follow it.
+                dc.close_channel();
                 #[cfg(rustrtc_verif)]
                 self.verif_chan(&dc, "close", "local_close");
             }
